@@ -9,6 +9,8 @@ import (
 	"github.com/facebookincubator/dns/dnsrocks/dnsdata"
 	"github.com/facebookincubator/dns/dnsrocks/dnsdata/rdb"
 	cdb "github.com/repustate/go-cdb"
+
+	"github.com/facebookincubator/dns/dnsrocks/zzverif/nd"
 )
 
 //verif:subst * (*github.com/repustate/go-cdb.Cdb).FindStart github.com/facebookincubator/dns/dnsrocks/db.VerifCdbFindStart
@@ -47,6 +49,9 @@ func VerifCdbFindStart(c *cdb.Cdb, ctx *cdb.Context) {
 }
 
 func VerifCdbFindNext(c *cdb.Cdb, key []byte, ctx *cdb.Context) ([]byte, error) {
+	if !rdb.VerifNoYield {
+		nd.Yield() // every storage operation is a pre-emption point for schedule exploration
+	}
 	s := verifCdbStores[c]
 	s.Uses++
 	if s.Closed {
@@ -138,6 +143,9 @@ const (
 // VerifBuildStore compiles abstract records with the real encoders into a model store of the
 // given layout and returns the real driver over it.
 func VerifBuildStore(recs []dnsdata.VerifRec, layout int) (DBI, error) {
+	old := rdb.VerifNoYield
+	rdb.VerifNoYield = true
+	defer func() { rdb.VerifNoYield = old }()
 	codec := dnsdata.VerifNewCodec(layout != VerifLayoutCDB)
 	codec.Features.UseV2Keys = layout == VerifLayoutV2
 	var out []dnsdata.MapRecord
@@ -161,4 +169,50 @@ func VerifBuildStore(recs []dnsdata.VerifRec, layout int) (DBI, error) {
 	m := rdb.NewVerifDB()
 	VerifLoadRocks(m, out)
 	return VerifNewRdbDriver(m), nil
+}
+
+// ---- generations (C05/C12/C14): what a path on disk currently holds ----
+
+// VerifOpen is consulted by the openRDB/openCDB substitutes: it returns the back end for a
+// path, or an error.
+var VerifOpen func(path string) (DBI, error)
+
+//verif:subst * github.com/facebookincubator/dns/dnsrocks/db.openRDB github.com/facebookincubator/dns/dnsrocks/db.VerifOpenStub
+//verif:subst * github.com/facebookincubator/dns/dnsrocks/db.openCDB github.com/facebookincubator/dns/dnsrocks/db.VerifOpenStub
+
+func VerifOpenStub(path string) (DBI, error) { return VerifOpen(path) }
+
+// VerifSetRdbPath sets the path an rdbdriver believes it was opened from.
+func VerifSetRdbPath(d DBI, path string) {
+	if r, ok := d.(*rdbdriver); ok {
+		r.path = path
+	}
+}
+
+// VerifRocksModel returns the model behind an rdbdriver (nil for other drivers).
+func VerifRocksModel(d DBI) *rdb.VerifDB {
+	if r, ok := d.(*rdbdriver); ok {
+		return rdb.VerifModelOf(r.db)
+	}
+	return nil
+}
+
+// VerifBuildSnapshot compiles records into a RocksDB snapshot (used to advance a primary).
+func VerifBuildSnapshot(recs []dnsdata.VerifRec, v2 bool) (*rdb.VerifSnap, error) {
+	layout := VerifLayoutV1
+	if v2 {
+		layout = VerifLayoutV2
+	}
+	d, err := VerifBuildStore(recs, layout)
+	if err != nil {
+		return nil, err
+	}
+	return VerifRocksModel(d).Cur, nil
+}
+
+// VerifPrimaryOf wraps a snapshot as the primary a secondary catches up with.
+func VerifPrimaryOf(s *rdb.VerifSnap) *rdb.VerifDB {
+	p := rdb.NewVerifDB()
+	p.Cur = s
+	return p
 }
